@@ -5,7 +5,7 @@ use crate::Xtea;
 use cipher::{BlockCipherDecrypt, BlockCipherEncrypt, KeyInit};
 use refmodels::xtea as r;
 
-//@ harness name=xtea_conf_enc prop=C09,C20 tier=quick bits=192 est=57 desc="D: Xtea::new_from_slice(key).encrypt_block(b) == oracle 32-cycle XTEA encipher over LE words, all 2^128 keys, all 2^64 blocks; no panic/overflow"
+//@ harness name=xtea_conf_enc prop=C09,C20 tier=quick bits=192 est=50 desc="D: Xtea::new_from_slice(key).encrypt_block(b) == oracle 32-cycle XTEA encipher over LE words, all 2^128 keys, all 2^64 blocks; no panic/overflow"
 verif_harness! {
     name: xtea_conf_enc,
     bytes: 24,
@@ -23,7 +23,7 @@ verif_harness! {
     }
 }
 
-//@ harness name=xtea_conf_dec prop=C09,C20 tier=quick bits=192 est=114 desc="D: Xtea::new_from_slice(key).decrypt_block(b) == oracle XTEA decipher over LE words, all keys, all blocks; no panic/overflow"
+//@ harness name=xtea_conf_dec prop=C09,C20 tier=quick bits=192 est=95 desc="D: Xtea::new_from_slice(key).decrypt_block(b) == oracle XTEA decipher over LE words, all keys, all blocks; no panic/overflow"
 verif_harness! {
     name: xtea_conf_dec,
     bytes: 24,
@@ -41,7 +41,7 @@ verif_harness! {
     }
 }
 
-//@ harness name=xtea_keylen prop=C09 tier=quick bits=8 est=15 desc="D: Xtea::new_from_slice accepts exactly 16-byte keys (length symbolic 0..=20)"
+//@ harness name=xtea_keylen prop=C09 tier=quick bits=8 est=10 desc="D: Xtea::new_from_slice accepts exactly 16-byte keys (length symbolic 0..=20)"
 verif_harness! {
     name: xtea_keylen,
     bytes: 21,
